@@ -49,9 +49,9 @@ template <typename S, std::size_t N> cocls::with_allocator<S, cocls::async<long>
     co_return sum + (long)N;
 }
 template <typename S> cocls::async<long> make_frame(S &s, int size_class, cocls::future<void> *gate, long tag) {
-    switch (size_class) { case 0: return frame<S, 1>(s, {}, gate, tag); case 1: return frame<S, 8>(s, {}, gate, tag); default: return frame<S, 40>(s, {}, gate, tag); }
+    switch (size_class) { case 0: return frame<S, 1>(s, {}, gate, tag); case 1: return frame<S, 2>(s, {}, gate, tag); case 2: return frame<S, 8>(s, {}, gate, tag); default: return frame<S, 40>(s, {}, gate, tag); }
 }
-long expected(int size_class, long tag) { long n = size_class == 0 ? 1 : size_class == 1 ? 8 : 40, s = 0; for (long i = 0; i < n; i++) s += tag * 1000 + i; return s + n; }
+long expected(int size_class, long tag) { long n = size_class == 0 ? 1 : size_class == 1 ? 2 : size_class == 2 ? 8 : 40, s = 0; for (long i = 0; i < n; i++) s += tag * 1000 + i; return s + n; }
 
 // one creation + completion on storage s; returns number of heap allocations it caused on this thread
 template <typename S> unsigned long one_op(S &s, int size_class, bool suspend, long tag) {
@@ -67,7 +67,7 @@ template <typename S> unsigned long one_op(S &s, int size_class, bool suspend, l
     return dsim::thread_allocs() - a0;
 }
 struct Plan { int n; int size_class[6]; bool suspend[6]; };
-Plan draw_plan() { Plan p; p.n = 2 + dsim::choose(4); for (int i = 0; i < p.n; i++) { p.size_class[i] = dsim::choose(3); p.suspend[i] = dsim::flip(); } return p; }
+Plan draw_plan() { Plan p; p.n = 2 + dsim::choose(4); for (int i = 0; i < p.n; i++) { p.size_class[i] = dsim::choose(4); p.suspend[i] = dsim::flip(); } return p; }
 void note_plan(const Plan &p) { for (int i = 0; i < p.n; i++) dsim::plan_note(" %d%s", p.size_class[i], p.suspend[i] ? "s" : ""); }
 
 // sequences on a reusing policy: after the largest size was seen once, no further heap allocation
@@ -145,7 +145,7 @@ void dsim_scenario() {
         dsim::config().race_is_violation = true;
         int rounds[2] = {1 + (int)dsim::choose(3), 1 + (int)dsim::choose(3)};
         int sc[2][3]; bool su[2][3];
-        for (int t = 0; t < 2; t++) for (int i = 0; i < rounds[t]; i++) { sc[t][i] = dsim::choose(3); su[t][i] = dsim::flip(); }
+        for (int t = 0; t < 2; t++) for (int i = 0; i < rounds[t]; i++) { sc[t][i] = dsim::choose(4); su[t][i] = dsim::flip(); }
         dsim::plan_note("reusable_mtsafe two threads:"); for (int t = 0; t < 2; t++) { dsim::plan_note(" T%d", t); for (int i = 0; i < rounds[t]; i++) dsim::plan_note(":%d%s", sc[t][i], su[t][i] ? "s" : ""); }
         Tracked<cocls::reusable_storage_mtsafe> s;
         std::thread th[2];
